@@ -81,8 +81,8 @@ Record flagset := mkfl {
   fl_inflight : bool;    (* F3: a miss evicted a placeholder whose lock a caller is holding or waiting for *)
   fl_waited : bool;      (* F8: a completed entry was evicted / expired while a caller of its key (same dict) was
                             suspended in lock.acquire() *)
-  fl_uncounted : bool;   (* F31: a miss evicted a placeholder that was never counted (its call was aborted while
-                            entering the lock) *)
+  fl_uncounted : bool;   (* F31: a call was aborted while entering the lock and left a placeholder that no miss had
+                            counted, or a miss evicted such a placeholder *)
   fl_dead : bool;        (* F41: a computation failed or was cancelled and left its counted placeholder behind *)
   fl_phantom : bool;     (* F30: the wrapper-level currsize counts entries that are not in the running loop's dict
                             (new loop with currsize <> 0, cache_clear() during a flight) *)
@@ -201,6 +201,13 @@ Definition dmark (k : key) (d : list slot) : list slot :=
   | None => d
   end.
 
+(* the entry of key k is a placeholder that no miss has counted *)
+Definition uncounted_at (k : key) (d : list slot) : bool :=
+  match dfind k d with
+  | Some x => match se x with EPlace _ false => true | _ => false end
+  | None => false
+  end.
+
 (* the computation of key k ended without a result and its counted placeholder is still there *)
 Definition dead_left (k : key) (d : list slot) : bool :=
   match dfind k d with
@@ -311,7 +318,9 @@ Definition acquire (cf : cfg) (s : st) (c : cid) (k : key) (l : lid) : st * res 
    then raises); on a contended lock the caller queues and its future is cancelled by the scope at once *)
 Definition acquire_x (cf : cfg) (s : st) (c : cid) (k : key) (l : lid) : st * res :=
   match Lock.owner (locks s l), Lock.waiters (locks s l) with
-  | None, [] => (set_phase s c (CEntryCk k), RBlocked)
+  | None, [] =>
+      (* the call is going to be aborted here; an uncounted placeholder stays behind *)
+      (set_phase (set_fl s (fl_or_uncounted (fl s) (uncounted_at k (dict s)))) c (CEntryCk k), RBlocked)
   | _, _ =>
       let '(s1, r) := lock_do (set_phase s c (CLockWait k l (now s) (cur s))) l (Lock.AcqBegin c) in
       match r with
@@ -392,7 +401,8 @@ Definition step (cf : cfg) (s : st) (o : op) : st * res :=
           let '(s1, r) := lock_do s l (Lock.Resume c) in
           match r with
           | Lock.RDone => body cf s1 c k l g
-          | Lock.RCancelled => (set_phase s1 c CIdle, RCancelled)
+          | Lock.RCancelled =>
+              (set_phase (set_fl s1 (fl_or_uncounted (fl s1) (uncounted_at k (dicts s1 g)))) c CIdle, RCancelled)
           | Lock.RRejected => (s, RRejected)
           | _ => (set_phase s1 c CIdle, RLockErr)
           end
